@@ -218,6 +218,31 @@ def render(nodes, scopes, env, pbstack=()):
     return "".join(out)
 
 
+def designated_context(n, scopes, env):
+    """the context a partial call (or a use of @partial-block) designates: the context argument if there is one, else the current
+    context; with hash arguments, an object holding its fields / elements / characters plus the hash entries"""
+    if n.get("ctx") is not None:
+        base = eval_arg(n["ctx"], scopes, env)
+    else:
+        base = scopes[0].ctx
+    if base is MISSING:
+        base = None
+    hv = [(k, eval_arg(a, scopes, env)) for k, a in n.get("hash", [])]
+    if hv:
+        if isinstance(base, dict):
+            m = dict(base)
+        elif isinstance(base, list):
+            m = {str(i): x for i, x in enumerate(base)}
+        elif isinstance(base, str):
+            m = {str(i): ch for i, ch in enumerate(base)}
+        else:
+            m = {}
+        for k, v in hv:
+            m[k] = None if v is MISSING else v
+        base = m
+    return base
+
+
 def render_node(n, scopes, env, pbstack):
     t = n["t"]
     if t == "text":
@@ -324,25 +349,7 @@ def render_node(n, scopes, env, pbstack):
                 body = n["block"]
             else:
                 raise SpecError(["PartialNotFound"])
-        if n.get("ctx") is not None:
-            base = eval_arg(n["ctx"], scopes, env)
-        else:
-            base = scopes[0].ctx
-        if base is MISSING:
-            base = None
-        hv = [(k, eval_arg(a, scopes, env)) for k, a in n.get("hash", [])]
-        if hv:
-            if isinstance(base, dict):
-                m = dict(base)
-            elif isinstance(base, list):
-                m = {str(i): x for i, x in enumerate(base)}
-            elif isinstance(base, str):
-                m = {str(i): ch for i, ch in enumerate(base)}
-            else:
-                m = {}
-            for k, v in hv:
-                m[k] = None if v is MISSING else v
-            base = m
+        base = designated_context(n, scopes, env)
         new_pb = pbstack
         if n.get("block") is not None and exists:
             new_pb = ((n["block"], scopes),) + tuple(pbstack)
@@ -357,7 +364,8 @@ def render_node(n, scopes, env, pbstack):
             raise Undefined("@partial-block inside a fallback body")
         (body, def_scopes) = pbstack[0]
         # the block body is rendered like a partial on the context current where it is used
-        return render(body, [Scope(scopes[0].ctx, "partial")], env, pbstack[1:])
+        # – or on the context / hash arguments written at the use, exactly as for a named partial
+        return render(body, [Scope(designated_context(n, scopes, env), "partial")], env, pbstack[1:])
     raise Undefined(t)
 
 
@@ -524,7 +532,18 @@ def print_node(rng, n):
             return "{{#> " + n["name"] + args + "}}" + b + "{{/" + n["name"] + "}}"
         return "{{> " + n["name"] + args + "}}"
     if t == "pblock":
-        return "{{> @partial-block}}"
+        args = ""
+        if n.get("ctx") is not None:
+            a = print_arg(rng, n["ctx"], True)
+            if a is None:
+                return None
+            args += " " + a
+        for k, harg in n.get("hash", []):
+            a = print_arg(rng, harg, True)
+            if a is None:
+                return None
+            args += " " + k + "=" + a
+        return "{{> @partial-block" + args + "}}"
     if t == "inline":
         b = print_nodes(rng, n["body"])
         if b is None:
